@@ -404,3 +404,45 @@ Theorem C10_generated_string_headers :
    GoSem.GOk ((GoSem.go_len pre + 5)%Z, pre ++ 219%N :: be32 (N.of_nat len mod 4294967296)%N ++ tail).
 Proof. exact C10GenEquiv.string_headers_gen. Qed.
 Print Assumptions C10_generated_string_headers.
+
+(* ---------- Follow-up wave-4 seed 8: a long-lived rewriter instance over records that alias a recycled buffer ----------
+   Model/RewriterMem.v: the fields of a record are references (offset, length) into the backing buffer of the raw
+   input; the buffer is overwritten from record to record; every inline node of a rewriter chain instance may keep
+   state from call to call. *)
+From SV Require Import Model.RewriterMem Proofs.RewriterMemProofs.
+
+(* For EVERY history of calls (any buffer contents at every moment, any references, any earlier records), an instance
+   that keeps nothing (rinline.go: Direct) or only owned copies (CacheByValue) answers each call exactly as the
+   stateless value-level rewriter of Model/Serializer.v does on the values the record has at the moment of the call. *)
+Theorem C10_rewriter_history_own_values :
+  forall mode, mode <> CacheByRef -> forall (h : list call) (rw : rewriter_st), wf mode rw ->
+  run_history mode rw h = map (call_stateless (erase rw)) h.
+Proof. exact history_own_values. Qed.
+Print Assumptions C10_rewriter_history_own_values.
+
+(* ... hence for a chain accepted by VerifyRewriterConfigs: every call of every history reserves rewrite_max and writes
+   the documented rewrite_spec ("name=value " prefixes, then the unescaped / copied value) of ITS OWN record. *)
+Theorem C10_rewriter_history_spec :
+  forall schema ch, ch <> [] -> verify_rewriters schema ch = true ->
+  exists rw0, new_rewriters schema ch = Ok (Some rw0) /\
+  forall mode, mode <> CacheByRef -> forall rw, erase rw = rw0 -> wf mode rw ->
+  forall h, Forall (call_fits schema ch) h -> run_history mode rw h = map (call_spec schema ch) h.
+Proof. exact history_spec. Qed.
+Print Assumptions C10_rewriter_history_spec.
+
+(* a fresh instance satisfies the hypotheses *)
+Theorem C10_rewriter_fresh_instance :
+  forall mode rw, wf mode (instantiate rw) /\ erase (instantiate rw) = rw.
+Proof. intros mode rw. split; [exact (wf_instantiate mode rw)|exact (erase_instantiate rw)]. Qed.
+Print Assumptions C10_rewriter_fresh_instance.
+
+(* The variant that keeps the field STRING (a reference into the recycled buffer) as the key of a prefix cache
+   violates it: two records "AAhi" / "BBhi" in the same buffer, the second is written as "cls=AA hi". *)
+Theorem C10_rewriter_cache_by_ref_variant_refuted :
+  exists rw0, new_rewriters wit_schema wit_chain = Ok (Some rw0) /\
+    verify_rewriters wit_schema wit_chain = true /\ Forall (call_fits wit_schema wit_chain) wit_history /\
+    run_history CacheByRef (instantiate rw0) wit_history <> map (call_spec wit_schema wit_chain) wit_history /\
+    nth 1 (run_history CacheByRef (instantiate rw0) wit_history) (Panic 0, Panic 0)
+    = (Ok 9%nat, Ok ([99;108;115;61;65;65;32;104;105], 9%nat)).
+Proof. exact cache_by_ref_refuted. Qed.
+Print Assumptions C10_rewriter_cache_by_ref_variant_refuted.
